@@ -12,7 +12,7 @@
         parser.ParseFrugal on a file system
         tags: ok -> 2000 + min(#files in the tree, 99); error -> 2100 + class; panic -> 2900 *)
 From Coq Require Import String ZArith List Bool.
-From FV Require Import Model.ParserStrings Model.ParserAst Model.Parser Model.ParserFiles
+From FV Require Import Model.ParserStrings Model.ParserAst Model.Parser Model.ParserFsys
      Model.CompilerValidate Judge.Wire Judge.JParser.
 Import ListNotations.
 Open Scope Z_scope.
